@@ -13,9 +13,48 @@ import (
 
 type (
 	Map    = sync.Map
-	Pool   = sync.Pool
 	Locker = sync.Locker
 )
+
+// Pool is a scheduler-aware sync.Pool: under the scheduler Get and Put are scheduling points and the pool is a
+// deterministic LIFO (an object put back is the next one handed out, which is what makes a use-after-Put visible);
+// free-running it is the real sync.Pool.
+type Pool struct {
+	New   func() interface{}
+	real  sync.Pool
+	items []interface{}
+}
+
+func (p *Pool) Get() interface{} {
+	if vsched.S != nil && vsched.Active() {
+		vsched.Yield("pool-get")
+		if n := len(p.items); n > 0 {
+			x := p.items[n-1]
+			p.items = p.items[:n-1]
+			return x
+		}
+		if p.New != nil {
+			return p.New()
+		}
+		return nil
+	}
+	if x := p.real.Get(); x != nil {
+		return x
+	}
+	if p.New != nil {
+		return p.New()
+	}
+	return nil
+}
+
+func (p *Pool) Put(x interface{}) {
+	if vsched.S != nil && vsched.Active() {
+		vsched.Yield("pool-put")
+		p.items = append(p.items, x)
+		return
+	}
+	p.real.Put(x)
+}
 
 // Mutex is a scheduler-aware sync.Mutex.
 type Mutex struct {
